@@ -538,15 +538,21 @@ func (t *tap) Do(req *http.Request) (*http.Response, error) {
 	} else {
 		resp, err = noRedirectClient.Do(req)
 	}
+	// the response body is read before the lock is taken again: a handler that
+	// streams a long body is still running while the client reads it, and its
+	// bookkeeping (WriteHeader count, recovered panics) needs the lock
+	var rb []byte
+	if err == nil {
+		rb, _ = io.ReadAll(resp.Body)
+		resp.Body.Close()
+		resp.Body = io.NopCloser(bytes.NewReader(rb))
+	}
 	if cs != nil {
 		cs.mu.Lock()
 	}
 	if err != nil {
 		return nil, err
 	}
-	rb, _ := io.ReadAll(resp.Body)
-	resp.Body.Close()
-	resp.Body = io.NopCloser(bytes.NewReader(rb))
 	if cs != nil {
 		cs.obs.Response = &RawResp{Status: resp.StatusCode, Header: map[string][]string(resp.Header.Clone()), Body: rb}
 	}
